@@ -24,5 +24,6 @@ def run(ctx):
     ss.write_apis_unconditional(ctx, 'C15')
     # a read inside a transaction must not put pending (uncommitted) data into the cache: it would survive a rollback
     ss.reads_fill_cache_from_db(ctx, 'C15')
+    ss.cache_after_db(ctx, 'C15')   # writes inside a transaction do not reach the cache before commit
     from rules import c11
     c11.priority_rules(ctx, 'C15')
